@@ -38,11 +38,29 @@ def _mode_word(mode):
     return R.RDC
 
 
-def _stream(mode, nrows, long_rows, base15, dbl, drop, cr_first):
+FULL = ("ABCDEFGHIJKLMNOPQRSTUVWXYZ012345", "abcdefghijklmnopqrstuvwxyz678901", "ZYXWVUTSRQPONMLKJIHGFEDCBA987654")
+
+
+def _tc2(tk, i, drop):
+    """line stamps by kind: 0 = from 00:00:00:00 every 2 s; 1 = last of three lines in second 59 at frame 20
+    (its transmission crosses the minute); 2 = across the hour (00:59:57:25 + 2 s per line)"""
+    sep = ";" if drop else ":"
+    if tk == 0:
+        sec, fr = 2 * i, 0
+    elif tk == 1:
+        sec, fr = 55 + 2 * i, 10 * i
+    else:
+        sec, fr = 3597 + 2 * i, 25
+    return "%02d:%02d:%02d%s%02d" % (sec // 3600, sec // 60 % 60, sec % 60, sep, fr)
+
+
+def _stream(mode, nrows, long_rows, base15, dbl, drop, cr_first, tk=None, full=False):
     lines = []
     texts = []
     for i in range(nrows):
         t = TEXTS[i] if not long_rows else TEXTS[i] + TEXTS[(i + 1) % 5]
+        if full:
+            t = FULL[i % 3]
         texts.append(t)
         if mode < 3:
             row = 15 if base15 else 14
@@ -52,13 +70,13 @@ def _stream(mode, nrows, long_rows, base15, dbl, drop, cr_first):
                 words = ([_mode_word(mode)] if i == 0 else []) + [R.pac(row)] + R.chars(t) + [R.CR]
         else:
             row = (13 + i) if base15 else (5 + 2 * i)
-            words = [R.RDC, R.pac(row, 4)] + R.chars(t)
-        lines.append(_tc(2 + 2 * i, drop) + "\t" + " ".join(_dbl(words, dbl)))
+            words = [R.RDC, R.pac(row, 0 if full else 4)] + R.chars(t)
+        lines.append((_tc(2 + 2 * i, drop) if tk is None else _tc2(tk, i, drop)) + "\t" + " ".join(_dbl(words, dbl)))
     return HEADER + "\n\n".join(lines) + "\n", texts
 
 
-def _check(mode, nrows, long_rows, base15, dbl, drop, cr_first):
-    doc, texts = _stream(mode, nrows, long_rows, base15, dbl, drop, cr_first)
+def _check(mode, nrows, long_rows, base15, dbl, drop, cr_first, tk=None, full=False):
+    doc, texts = _stream(mode, nrows, long_rows, base15, dbl, drop, cr_first, tk, full)
     try:
         caps = SCCReader().read(doc).get_captions("en-US")
     except Exception as e:
@@ -98,6 +116,18 @@ def painton(nrows: int, long_rows: bool, base15: bool, dbl: bool, drop: bool) ->
     """
     n = 1 if nrows == 1 else (2 if nrows == 2 else 3)
     return _check(3, n, long_rows, base15, dbl, drop, False)
+
+
+def stamps_and_full_rows(mode: int, tk: int, full: bool, dbl: bool, drop: bool, cr_first: bool) -> str:
+    """
+    pre: 0 <= mode <= 3 and 0 <= tk <= 2
+    post: _ == ""
+    """
+    # three rows; the first line stamped 00:00:00:00, or the last line's transmission crossing a minute / the
+    # lines crossing the hour; rows of a few characters or of the full 32 columns
+    m = 0 if mode == 0 else (1 if mode == 1 else (2 if mode == 2 else 3))
+    k = 0 if tk == 0 else (1 if tk == 1 else 2)
+    return _check(m, 3, False, True, dbl, drop, cr_first and m < 3, k, full)
 
 
 def rollup5(mode: int, nrows: int, long_rows: bool, dbl: bool, cr_first: bool) -> str:
